@@ -61,9 +61,12 @@ def jobs(tier):
     for sub in ('Verify',):
         js.append({'name': 'cli: options passed to the run for sub-command %s x all flags' % sub, 'harness': ('props.c17', 'h_cli'),
                    'mir': ('lib', 'bin'), 'params': {'sub': sub, 'txtpp_file': None}})
-    for txt in ((b't\xef\xbf\xbd',) if quick else (b't\xef\xbf\xbd', b'\xc3\xa9x', b'\xf0\x9f\x98\x80', b'\xef\xbf\xbd\xef\xbf\xbd')):
-        js.append({'name': 'verify non-ASCII output %r against arbitrary bytes' % txt, 'harness': ('props.c06', 'h_verify_nonascii'), 'params': {'text': txt, 'free': (1, 4) if quick else None},
-                   'split': 8})
+    # (every arbitrary byte costs up to nine class forks in the lossy decoder: the number of free positions is kept at 3-4)
+    variants = [(b't\xef\xbf\xbd', (1, 4))] if quick else [(b't\xef\xbf\xbd', (0, 4)), (b'\xc3\xa9x', None), (b'\xf0\x9f\x98\x80', (0, 4)),
+                                                           (b'\xef\xbf\xbd\xef\xbf\xbd', (1, 5))]
+    for txt, free in variants:
+        js.append({'name': 'verify non-ASCII output %r against arbitrary bytes at %s' % (txt, free), 'harness': ('props.c06', 'h_verify_nonascii'),
+                   'params': {'text': txt, 'free': free}, 'split': 8})
     from . import project
     js += project.jobs('C06', tier)
     return js
